@@ -1,6 +1,6 @@
 (* C17 — Offset filters implement their selection rule and reset cleanly. *)
 From ST Require Import Base.Ints Base.Value Base.Sorting Base.F64 Model.NtpTime Model.Ftm Model.Lucky Model.Ntimed
-  Proofs.LuckyProofs Proofs.NtimedProofs.
+  Proofs.LuckyProofs Proofs.NtimedProofs Proofs.NtimedFloat.
 From Coq Require Import ZArith List Sorting.Permutation.
 Import ListNotations.
 Open Scope Z_scope.
@@ -117,17 +117,51 @@ Example C17_ntimed_reset_example :
   is_reset_point 5 (NDo 6 {| sm_ctx := 0; sm_srx := 10; sm_stx := 10; sm_crx := 20 |}) = true.
 Proof. split; reflexivity. Qed.
 
-(* Oracle on the model, all histories.  PARTIAL: the numeric clause "raw_f s is within 2 ns (+2^-50
-   relative) of ntp.ClockOffset and has its sign" is a hypothesis here (for the samples of the
-   history) instead of a proved Flocq error bound; full statement:
-     forall ops, C17_ntimed_ok ops (within_of tr) (map ni_out tr) (reset_points 0 0 ops) (nt_run_restarting (nt_zero 0) ops) = true.
-   The closeness clause is enforced by the oracle on every observed output of the implementation. *)
-Theorem C17_ntimed_oracle_partial : forall ops,
+(* "Raw offset (correct sign, within float rounding)": raw_f s, computed in binary64 as
+   Inv(Duration((lo.Seconds() + hi.Seconds()) / 2)), against the exact integer ntp.ClockOffset.
+   Proved from the Flocq semantics of the binary64 operations (every rounding: relative error 2^-53 plus
+   the underflow term; float64(int64) exact below 2^53; truncation int64(float64)), for ALL samples whose
+   one-way differences lo = cTx - sRx and hi = cRx - sTx are below 2^62 ns (146 years) in magnitude. *)
+Theorem C17_ntimed_raw_close : forall s, Z.abs (lo_ns s) < 2^62 -> Z.abs (hi_ns s) < 2^62 ->
+  Z.abs (raw_f s - raw_offset s) <= 2 + (Z.abs (lo_ns s) + Z.abs (hi_ns s)) / 2^50.
+Proof. exact raw_f_close_Z. Qed.
+Print Assumptions C17_ntimed_raw_close.
+
+(* sharper: within one nanosecond while |lo| + |hi| < 2^50 ns (13 days) *)
+Theorem C17_ntimed_raw_close_1ns : forall s, Z.abs (lo_ns s) + Z.abs (hi_ns s) < 2^50 ->
+  Z.abs (raw_f s - raw_offset s) <= 1.
+Proof. exact raw_f_close_1ns. Qed.
+Print Assumptions C17_ntimed_raw_close_1ns.
+
+(* correct sign: an exact offset beyond the tolerance keeps its sign *)
+Theorem C17_ntimed_raw_sign : forall s, Z.abs (lo_ns s) < 2^62 -> Z.abs (hi_ns s) < 2^62 ->
+  (raw_tol s < raw_offset s -> 0 < raw_f s) /\ (raw_offset s < - raw_tol s -> raw_f s < 0).
+Proof. exact raw_f_sign. Qed.
+Print Assumptions C17_ntimed_raw_sign.
+
+(* the closeness clause of the property oracle, on every sample (beyond 2^62 ns the oracle does not judge) *)
+Theorem C17_ntimed_raw_close_oracle : forall s, raw_close s (raw_f s) = true.
+Proof. exact raw_f_close. Qed.
+Print Assumptions C17_ntimed_raw_close_oracle.
+
+(* Oracle on the model, all histories, given the closeness clause for the samples of the history
+   (the form proved before the rounding-error analysis; kept because C17_ntimed_oracle is derived from it). *)
+Theorem C17_ntimed_oracle_conditional : forall ops,
   (forall s, In s (do_samples ops) -> raw_close s (raw_f s) = true) ->
   let tr := nt_trace (nt_zero 0) ops in
   C17_ntimed_ok ops (within_of tr) (map ni_out tr) (reset_points 0 0 ops) (nt_run_restarting (nt_zero 0) ops) = true.
 Proof. exact ntimed_model_meets_oracle. Qed.
-Print Assumptions C17_ntimed_oracle_partial.
+Print Assumptions C17_ntimed_oracle_conditional.
+
+(* Oracle on the model: for ALL histories of Do/Reset with arbitrary epochs and arbitrary timestamps, the
+   model's outputs are accepted by the property oracle (raw offset within float rounding and of the right sign
+   on the first three samples after a reset point and on samples within the learned bounds; reset points where
+   the history puts them; outputs equal to those of new filters started at every reset point).  No hypothesis. *)
+Theorem C17_ntimed_oracle : forall ops,
+  let tr := nt_trace (nt_zero 0) ops in
+  C17_ntimed_ok ops (within_of tr) (map ni_out tr) (reset_points 0 0 ops) (nt_run_restarting (nt_zero 0) ops) = true.
+Proof. exact ntimed_model_meets_oracle_all. Qed.
+Print Assumptions C17_ntimed_oracle.
 
 (* the reset clause of the oracle holds unconditionally *)
 Theorem C17_ntimed_oracle_reset : forall ops,
@@ -136,9 +170,9 @@ Theorem C17_ntimed_oracle_reset : forall ops,
 Proof. exact ntimed_reset_oracle. Qed.
 Print Assumptions C17_ntimed_oracle_reset.
 
-(* the closeness hypothesis holds on concrete samples (10 ms out, 50 ms back, offset 3 ms) *)
+(* the bounds of C17_ntimed_raw_close are met by ordinary samples (13 ms out, 47 ms back, offset -17 ms) *)
 Example C17_ntimed_close_example :
   let s := {| sm_ctx := 1700000000000000000; sm_srx := 1700000000013000000;
               sm_stx := 1700000000013000000; sm_crx := 1700000000060000000 |} in
-  raw_close s (raw_f s) = true /\ raw_offset s = -17000000.
-Proof. vm_compute. split; reflexivity. Qed.
+  Z.abs (lo_ns s) < 2^62 /\ Z.abs (hi_ns s) < 2^62 /\ raw_close s (raw_f s) = true /\ raw_offset s = -17000000 /\ raw_f s = -17000000.
+Proof. vm_compute. repeat split; reflexivity. Qed.
